@@ -114,4 +114,43 @@ theorem C05_unchanged_not_written (old : OldEnv) (k v : Str) (h : old.lookup k =
     setCmd? {} old (k, v) = none := by
   simp [setCmd?, h]
 
+/-- **Removed aliases do not disturb the environment (repaired D27).**  The complete command list of an alias-free
+new state — exports, unsets, and an `unset -f NAME` for every alias that went away — evaluated from `old` yields
+exactly `new`, even when an alias shares its name with a variable. -/
+theorem C05_roundtrip_alias_removal (old new : Env) (oldAliases : List (Str × Option Str))
+    (hold : ∀ p ∈ old, isIdent p.1 = true) (hnew : ∀ p ∈ new, isIdent p.1 = true)
+    (hdict : (new.map (·.1)).Nodup)
+    (halpha : ∀ p ∈ new, old.get p.1 ≠ some p.2 → InAlphabet p.2)
+    (hprot : ∀ k, isProtected k = true → old.has k = true → new.has k = true)
+    (hal : ∀ p ∈ oldAliases, isIdent p.1 = true) :
+    ∃ cmds e, emit {} (OldEnv.ofEnv old) new [] oldAliases = some cmds ∧
+      shEval old (join cmds) = some e ∧ SameEnv e new := by
+  have hgoodv := emitVars_good (OldEnv.ofEnv old) old new (tracks_ofEnv old) hold hnew
+    (fun p hp hl => halpha p hp (by intro hg; apply hl; rw [lookup_ofEnv, hg]; rfl))
+  have hcm : emitCmds {} (OldEnv.ofEnv old) new [] oldAliases =
+      emitVarsOn {} (OldEnv.ofEnv old) new ++ oldAliases.map (fun p => Cmd.aliasDel p.1) := by
+    simp [emitCmds, emitVars, finalEnv, emitAliases_nil]
+  have hgood : ∀ c ∈ emitCmds {} (OldEnv.ofEnv old) new [] oldAliases, c.Good := by
+    intro c hc
+    rw [hcm] at hc
+    rcases List.mem_append.mp hc with h | h
+    · exact hgoodv c h
+    · obtain ⟨p, hp, rfl⟩ := List.mem_map.mp h
+      exact hal p hp
+  refine ⟨(emitCmds {} (OldEnv.ofEnv old) new [] oldAliases).map Cmd.text,
+    applyAll (emitCmds {} (OldEnv.ofEnv old) new [] oldAliases) old, ?_, ?_, ?_⟩
+  · unfold emit; exact mapM_render_default _
+  · have := shEval_join _ hgood false old
+    simpa using this
+  · rw [hcm, applyAll_append, applyAll_aliasDels]
+    exact emitVars_apply (OldEnv.ofEnv old) old new (tracks_ofEnv old) hdict hprot
+
+/-- **D27, pinned tree (negation witness):** the pinned emission `unset ll` for a removed alias `ll` removes the
+*variable* `ll`; the repaired `unset -f ll` leaves the environment alone. -/
+theorem C05_alias_removal_pinned_witness :
+    let env : Env := [(Str.ofString "ll", Str.ofString "x")]
+    shEval env (Str.ofString "unset ll") = some [] ∧ shEval env (Str.ofString "unset -f ll") = some env ∧
+      emit {} (OldEnv.ofEnv env) env [] [(Str.ofString "ll", none)] = some [Str.ofString "unset -f ll"] := by
+  decide
+
 end EupsModel.C05
